@@ -3,6 +3,8 @@ CONSTANTS MAXKILL = 2
  W = 5
  NSTEPS = 6
  CacheMode = "state"
+ Layout = "sparse"
+ CompactMode = "output"
  NpidMode = "count"
 SPECIFICATION Spec
 INVARIANT PidsIncreasing
